@@ -1,4 +1,4 @@
 SPECIFICATION Spec
 CONSTANT Ns = {1, 2, 3, 4, 5, 6, 7, 8}
-INVARIANT ClosedIsRank InRange RingSizes PosOK
+INVARIANT ClosedIsRank InRange RingSizes PosOK RingStartOK
 CHECK_DEADLOCK FALSE
